@@ -838,3 +838,51 @@ def check_cancelled(case):
     if case["all"]:
         return _check_all(obj, sol, vs, spin, best, expected)
     return _check_one(obj, sol, stored, vs, spin, lambda a: True, best)
+
+
+# ---------------------------------------------------------------------------------------------
+# models whose enumeration was declared with set_mapping / set_reverse_mapping, with gaps
+# ---------------------------------------------------------------------------------------------
+def _gen_declared(ctx):
+    import itertools
+    for t in ("QUBO", "PUBO", "PCBO", "QUSO", "PUSO", "PCSO"):
+        for rev in (False, True):
+            for decl, terms in (({'a': 0, 'b': 2}, {('a', 'b'): 1, ('a',): -2}),
+                                ({'a': 0, 'b': 1, 'c': 3}, {('a', 'b'): 1, ('c',): -2, ('b', 'c'): 1}),
+                                ({'a': 3, 'b': 1}, {('a',): 1, ('b', 'c'): -3, ('c',): 1})):
+                for alls in (False, True):
+                    yield {"type": t, "decl": decl, "terms": terms, "rev": rev, "all": alls}
+
+
+@clause("C09.declared_mapping_gaps", "C09", gen=_gen_declared, nontrivial=lambda c: True)
+def check_declared(case):
+    """solve_bruteforce on a labelled model whose integer enumeration was declared with gaps (as in the library's own
+    test of set_mapping): the objective is the exhaustive minimum, the solution(s) range over exactly the model's
+    variables and are exactly the minimisers."""
+    import itertools
+    from .common import cls_of, peval, variables_of
+    T = cls_of(case["type"])
+    M = T()
+    if case["rev"]:
+        M.set_reverse_mapping({v: l for l, v in case["decl"].items()})
+    else:
+        M.set_mapping(dict(case["decl"]))
+    for k, v in case["terms"].items():
+        M[k] += v
+    spin = case["type"] in ("QUSO", "PUSO", "PCSO")
+    vs = sorted(M.variables, key=repr)
+    dom = (1, -1) if spin else (0, 1)
+    table = [dict(zip(vs, x)) for x in itertools.product(dom, repeat=len(vs))]
+    vals = [peval(dict(M), x) for x in table]
+    best = min(vals)
+    res = M.solve_bruteforce(all_solutions=case["all"])
+    sols = res if case["all"] else [res]
+    want = [x for x, v in zip(table, vals) if v == best]
+    for s_ in sols:
+        if set(s_) != set(vs):
+            return Fail("solution %r does not range over the variables %r" % (s_, vs), key="declared-domain")
+        if s_ not in want:
+            return Fail("solution %r is not a minimiser (minimum %r)" % (s_, best), key="declared-not-minimiser")
+    if case["all"] and (len(sols) != len(want) or any(w not in sols for w in want)):
+        return Fail("all_solutions returned %r, the minimisers are %r" % (sols, want), key="declared-all")
+    return None
